@@ -126,6 +126,8 @@ func init() {
 			{Rule: "RAPID.range", Min: 5, Why: "2x(seconds,nanos)+mapping"},
 			{Rule: "RAPID.opts", Min: 3, Why: "three option rules"},
 			{Rule: "RAPID.nil", Min: 2, Why: "nil sources + method calls"},
+			{Rule: "RAPID.utf8", Min: 3, Why: "ValueOfString sites"},
+			{Rule: "RAPID.any", Min: 1, Why: "genAny"},
 		},
 		Explanation: "SSA/AST rules on rapidproto; see level text. Runtime-value clauses (UTF-8, round trip, URL resolvability) are not decided.",
 	})
@@ -144,6 +146,7 @@ func init() {
 			{Rule: "T.flow", Min: 8, Why: "driver guards and error propagation"},
 			{Rule: "GEN.run", Min: 14, Why: "quick corpus schemas"},
 			{Rule: "GEN.types", Min: 12, Why: "generated packages"},
+			{Rule: "GEN.matrix", Min: 1, Why: "corpus coverage of kind x shape cells"},
 		},
 		Explanation: "Template-level brace typestate (all schemas) plus generator run + type-check over the schema corpus; see level text.",
 	})
@@ -369,6 +372,7 @@ func init() {
 			{Rule: "COH.tags", Min: 400, Why: "fields"},
 			{Rule: "COH.getter", Min: 400, Why: "getters"},
 			{Rule: "COH.enum", Min: 30, Why: "5 per enum"},
+			{Rule: "COH.msginfo", Min: 20, Why: "OneofWrappers lists"},
 		},
 		Explanation: "COH table agreement; see level text.",
 	})
